@@ -226,6 +226,9 @@ func (e *env) buildFrame(w *WState, op Op) frame.Frame {
 	series := make([]telem.Series, 0, len(w.Channels))
 	for _, id := range w.Channels {
 		c := e.st.Chans[id]
+		if unit := id; op.skips(unit) || (c.Lease != 0 && op.skips(e.st.group(id))) {
+			continue
+		}
 		sp := spec(c)
 		smp := make([][]byte, len(op.TS))
 		for i, t := range op.TS {
@@ -520,6 +523,21 @@ func (e *env) run() error {
 				e.rep.Add("discard:write:"+errText(fmt.Errorf("%v auth=%v", err, auth)), 1)
 				return nil
 			}
+			if len(op.Skip) > 0 {
+				e.rep.Class("partial-frame")
+				all := e.st.Leaseholders(ws.Channels)
+				var kept []uint32
+				for _, id := range ws.Channels {
+					c := e.st.Chans[id]
+					if op.skips(id) || (c.Lease != 0 && op.skips(e.st.group(id))) {
+						continue
+					}
+					kept = append(kept, id)
+				}
+				if len(e.st.Leaseholders(kept)) < len(all) {
+					e.rep.Class("partial-frame-leaves-out-a-leaseholder")
+				}
+			}
 			e.st.ApplyWrite(op)
 			if ws.AutoCommit && e.classifyWriter(ws) {
 				for _, id := range ws.Leased {
@@ -643,7 +661,7 @@ func (e *env) refusedCommit(op Op, ws *WState, where string) error {
 		c := e.st.Chans[id]
 		limit := min(ws.ChanBound[id], ws.Last+1)
 		var want [][]byte
-		for i, t := range ws.PendTS {
+		for i, t := range ws.PendTSk[id] {
 			if t < limit {
 				want = append(want, ws.PendVals[id][i])
 			}
@@ -651,7 +669,7 @@ func (e *env) refusedCommit(op Op, ws *WState, where string) error {
 		if len(want) == 0 {
 			continue
 		}
-		res, rerr := e.readVia(op.Via, []uint32{id}, ws.PendTS[0], limit)
+		res, rerr := e.readVia(op.Via, []uint32{id}, ws.PendTSk[id][0], limit)
 		if rerr != nil {
 			return kit.Fail("read-error-via-gateway", "%s: read of channel %d after acknowledged commit: %v", where, id, rerr)
 		}
